@@ -70,7 +70,9 @@ def main():
             if cls == 'WCA':
                 na = max(na, 12)
             seed = rng.randrange(1 << 30)
-            for name, hs, prior in PRIORS + [own_class_prior(cls, mod)]:
+            # the very same task (same seed, same sizes: bit-identical positions) run before with ANOTHER objective
+            twin = ('same-task-other-objective', '9', [{'cls': cls, 'mod': mod, 'n_agents': na, 'n_vars': nv, 'n_iter': ni, 'seed': seed, 'objective': 'const'}])
+            for name, hs, prior in PRIORS + [own_class_prior(cls, mod), twin]:
                 jobs.append((cls, (na, nv, ni), seed, name, hs, {'cls': cls, 'mod': mod, 'n_agents': na, 'n_vars': nv, 'n_iter': ni, 'seed': seed, 'prior': prior}))
             jobs.append((cls, (na, nv, ni), seed, 'other-seed', '0', {'cls': cls, 'mod': mod, 'n_agents': na, 'n_vars': nv, 'n_iter': ni, 'seed': seed + 1, 'prior': []}))
         # the same task in a hypercomplex space (agents rely on the untouched default unit bounds), and -- for two optimizers -- on an
@@ -102,7 +104,7 @@ def main():
         elif g.get('other-seed') == g.get('none'):
             records.append({'key': 'xproc:different-seeds-same-run:%s' % cls, 'optimizer': cls,
                             'what': 'two different seeds give the same run (the stream is not consumed)', 'config': {'cls': cls, 'size': size, 'seed': seed, 'digests': g}})
-    hlib.emit({'records': records, 'tasks': len(jobs), 'groups': len(groups), 'variants': [p[0] for p in PRIORS] + ['same-class-other-hyperparams']})
+    hlib.emit({'records': records, 'tasks': len(jobs), 'groups': len(groups), 'variants': [p[0] for p in PRIORS] + ['same-class-other-hyperparams', 'same-task-other-objective']})
 
 
 if __name__ == '__main__':
